@@ -113,6 +113,13 @@ func runPlans(w *out.W, tier, outDir string) {
 	thorough := tier == "thorough"
 	// 1. exhaustive small domain: one hot string in one role
 	n := 0
+	type winPlan struct {
+		id string
+		d  dialect
+		p  *migrate.Plan
+	}
+	var win []winPlan
+	defer flushKept(w, tmp)
 	for si, s := range singles() {
 		if !thorough && s.shape != 0 && si%8 != 0 {
 			continue
@@ -129,6 +136,12 @@ func runPlans(w *out.W, tier, outDir string) {
 			n++
 			desc := fmt.Sprintf("indent=%q shape=%d %s=%q", indent, s.shape, s.feats[0].role, s.hot[s.feats[0].role])
 			variants(w, tmp, fmt.Sprintf("s%d-%d", si, ii), s.d, p, classOf(s), desc, si, thorough, s, "")
+			// every three planned plans: one MemDir through Planner.WritePlan
+			win = append(win, winPlan{fmt.Sprintf("s%d-%d", si, ii), s.d, p})
+			if len(win) == 3 {
+				memDirCheck(w, [3]string{win[0].id, win[1].id, win[2].id}, [3]dialect{win[0].d, win[1].d, win[2].d}, [3]*migrate.Plan{win[0].p, win[1].p, win[2].p})
+				win = win[:0]
+			}
 		}
 	}
 	w.Set("single_feature_plans", n)
